@@ -20,9 +20,17 @@ def under_system(draw, surplus=(1, 3)):
                               sub_cond=1e4, nonneg=draw(st.sampled_from([True, True, True, False]))))
 
 
-def call_range(sv: Sys, B, entry, **kw):
+def call_range(sv: Sys, B, entry, absolute_ok=False, **kw):
     if entry == "estimator":
         est = sv.make_estimator()
+        Barr = np.asarray(B, dtype=float)
+        if absolute_ok and (sv.K_raw is None or np.ndim(sv.K_raw) <= 1) and int(abs(float(np.sum(Barr))) * 1e6) % 2 == 0:
+            # the same in-gamut targets stated as absolute (light-induced) captures, relative=False: the same set of solutions
+            # (out-of-gamut targets are another matter: the best fit in absolute capture is not the one in relative capture)
+            Kv = np.ones(sv.m) if sv.K_raw is None else np.broadcast_to(np.asarray(sv.K_raw, dtype=float), (sv.m,))
+            bv = np.zeros(sv.m) if sv.base_raw is None else np.broadcast_to(np.asarray(sv.base_raw, dtype=float), (sv.m,))
+            with unchanged("range", estimator=est):
+                return est.range_of_solutions(Barr / Kv - bv, relative=False, **kw)
         with unchanged("range", estimator=est):
             return est.range_of_solutions(B, **kw)
     from dreye.api.convex import range_of_solutions
@@ -109,7 +117,7 @@ def body_extent(case):
         arg = (b if case["one_d"] else b[None, :]) * c_
         try:
             with calling(f"range_of_solutions (units s={s_:g}, c={c_:g})", allow=(ValueError,)):
-                out = call_range(sv_call, arg, case["entry"])
+                out = call_range(sv_call, arg, case["entry"], absolute_ok=True)
                 out = (np.asarray(out[0]) * s_, np.asarray(out[1]) * s_) + tuple(out[2:])
         except ValueError as e:
             # out-of-gamut rejection: acceptable only for a target that is outside up to rounding
@@ -148,7 +156,7 @@ def body_spaced(case):
     B = np.array([r["b"] for r in case["rows"]], dtype=float)
     n = case["n"]
     with calling("range_of_solutions(n=)"):
-        out = call_range(sv, B, case["entry"], n=n)
+        out = call_range(sv, B, case["entry"], absolute_ok=True, n=n)
     check(len(out) == 3, "spaced:return", f"{len(out)} values returned with n={n}")
     xmins, xmaxs, Xs = out
     rng = sv.ub - sv.lb
